@@ -12,15 +12,18 @@ fn main() {
     let prop = args.pos.first().cloned().unwrap_or_default();
     vcore::panics::install(!args.flag("loud"));
     let mut rep = Report::new(&prop.to_uppercase(), args.seed());
-    match prop.as_str() {
-        "c06" => c06::run(&args, &mut rep),
-        "c07" => c07::run(&args, &mut rep),
-        "c14" => c14::run(&args, &mut rep),
-        "c16" => c16::run(&args, &mut rep),
-        other => {
-            eprintln!("unknown property {other}");
-            std::process::exit(2);
+    // a panic that escapes the monitor's own guards (e.g. out of a Drop of a library type) still yields a fragment
+    vcore::guarded(&mut rep, &args, |rep| {
+        match prop.as_str() {
+            "c06" => c06::run(&args, rep),
+            "c07" => c07::run(&args, rep),
+            "c14" => c14::run(&args, rep),
+            "c16" => c16::run(&args, rep),
+            other => {
+                eprintln!("unknown property {other}");
+                std::process::exit(2);
+            }
         }
-    }
+    });
     rep.finish(args.get("out"));
 }
